@@ -158,6 +158,8 @@ class P:
     def __init__(self, phase, rec, prof, ns, lib, snaps):
         self.phase, self.rec, self.prof, self.ns, self.lib, self.snaps = phase, rec, prof, ns, lib, snaps
         self.raw = {}
+        self.baton = None
+        self.sched = None
         self.not_registered = []
         self.impure = []
         self.peeks = []
@@ -240,6 +242,8 @@ class P:
             self.rec.ops.append(('A', d))
         else:
             self.lib.vclock_advance(d)
+        if self.baton is not None:
+            self.baton.handoff()
 
     def snap(self, mode=0):
         # reference cycles (e.g. a wrapper frame <-> the exception it forwards) make the moment abandoned
@@ -296,13 +300,73 @@ class P:
     # threads (C13): real threads, joined; the schedule is whatever the interpreter does
     def yield_(self):
         import time
-        time.sleep(0)
+        if self.baton is not None:
+            self.baton.handoff()
+        else:
+            time.sleep(0)
 
     def note_count(self, k):
         self.counts[k] = self.prof.enable_count
 
     def run_threads(self, work, n):
+        if self.sched is not None:
+            # an explicit schedule: one thread runs at a time, switches happen at the A()/yield points (between two
+            # line events of the running code, also deep inside profiled functions) as a seeded PRNG decides; both
+            # phases replay the same schedule
+            self.baton = Baton(n, self.sched)
+            try:
+                self.baton.run(work)
+            finally:
+                self.baton = None
+            return
         ts = [threading.Thread(target=work, args=(k,)) for k in range(n)]
+        for t in ts:
+            t.start()
+        for t in ts:
+            t.join()
+
+
+class Baton:
+    def __init__(self, n, seed):
+        import random
+        self.n = n
+        self.rnd = random.Random(seed)
+        self.cv = threading.Condition()
+        self.alive = set(range(n))
+        self.turn = 0
+        self.idx = {}
+
+    def _me(self):
+        return self.idx.get(threading.get_ident())
+
+    def handoff(self):
+        me = self._me()
+        if me is None:
+            return
+        with self.cv:
+            others = sorted(self.alive - {me})
+            if not others or self.rnd.random() < 0.4:
+                return
+            self.turn = self.rnd.choice(others)
+            self.cv.notify_all()
+            while self.turn != me:
+                self.cv.wait()
+
+    def run(self, work):
+        def runner(k):
+            self.idx[threading.get_ident()] = k
+            with self.cv:
+                while self.turn != k:
+                    self.cv.wait()
+            try:
+                work(k)
+            finally:
+                with self.cv:
+                    self.alive.discard(k)
+                    if self.alive:
+                        self.turn = self.rnd.choice(sorted(self.alive))
+                    self.cv.notify_all()
+        ts = [threading.Thread(target=runner, args=(k,)) for k in range(self.n)]
         for t in ts:
             t.start()
         for t in ts:
@@ -322,6 +386,7 @@ def run_program(prog, root, lib, k):
         prof = Prof()
         h = P(phase, rec, prof, ns, lib, snaps)
         h.root, h.k = root, k
+        h.sched = prog.get('sched')
         ns['A'] = h.adv
         ns['PROF'] = prof
         ns['SNAP'] = h.snap
